@@ -1794,6 +1794,36 @@ func (e *Enc) onSelect(x *ssa.Select, idx Term) {
 	}
 }
 
+// sendHookName: a blocking send statement (ssa.Send: not an arm of a select) on a channel read from a struct field
+// is named `send:<field>`; on anything else `send:?`.
+func sendHookName(ch ssa.Value) string {
+	if u, ok := ch.(*ssa.UnOp); ok && u.Op == token.MUL {
+		if fa, ok := u.X.(*ssa.FieldAddr); ok {
+			if st, ok := derefType(fa.X.Type()).Underlying().(*types.Struct); ok {
+				return "send:" + st.Field(fa.Field).Name()
+			}
+		}
+	}
+	return "send:?"
+}
+
+// onSend: ghost hooks anchored at an unconditional send: `ghost after call send:<field> : ...` runs when the send
+// statement completed. A send that was turned into an arm of a select (possibly with a default) is no ssa.Send and
+// fires nothing, so a ghost counter of requests stays behind and the hook is reported as never hit. The send itself
+// (buffering, the receiver) stays abstracted.
+func (e *Enc) onSend(x *ssa.Send) error {
+	if e.fc == nil {
+		return nil
+	}
+	name := sendHookName(x.Chan)
+	for _, h := range e.fc.Hooks {
+		if h.Callee == name {
+			return e.runHooksNamed("after", name, -1, x, nil, nil)
+		}
+	}
+	return nil
+}
+
 // callWrites adds the writes of a call inside a loop to ws; returns true when everything may change.
 func (e *Enc) callWrites(li *loopInfo, ci ssa.CallInstruction, ws writeSets) bool {
 	c := ci.Common()
